@@ -153,6 +153,35 @@ int main(int argc, char** argv) {
             }
         }
     }
+    // preamble: interior split next to separators that differ from their neighbours only in length.  128 ascending keys "0", x\0^j
+    // (x = 16 letters, j = 0..7): 16 borders of 8 under a full root interior whose separators are the 8-byte keys x\0^7; then child c is
+    // filled so that its 16th key splits it with the ONE-byte key x as new separator, right below the separator x\0^7 (for c = 7: the
+    // pivot of the interior split); dump, point lookups of every key, everything removed again
+    if (argi("isplitlen", 0)) {
+        auto do_rem = [&](const std::string& k) { status rc = remove(tok, st, k); std::string o = "{\"op\":\"rem\",\"k\":" + vh::jbytes(k) + ",\"st\":\"" + vh::stname(rc) + "\"}"; puts(o.c_str()); if (rc == status::OK) present[k] = false; };
+        auto do_get = [&](const std::string& k) { std::pair<char*, std::size_t> out{nullptr, 0}; std::pair<node_version64_body, node_version64*> cv{}; status rc = get<char>(st, k, out, &cv); vh::Canon c(ti);
+            std::string o = "{\"op\":\"get\",\"k\":" + vh::jbytes(k) + ",\"st\":\"" + vh::stname(rc) + "\"";
+            if (rc == status::OK) o += ",\"v\":" + std::string(out.first ? std::to_string(*(int*)out.first) : "-1") + ",\"len\":" + std::to_string(out.second);
+            else o += ",\"nv\":[[" + std::to_string(c.ofver(cv.second)) + "," + std::to_string(cv.first.get_vinsert_delete()) + "," + std::to_string(cv.first.get_vsplit()) + "]]";
+            o += "}"; puts(o.c_str()); };
+        int variant = 0;
+        for (int c : {7, 6, 8, 1}) {
+            std::vector<std::string> seq; seq.push_back("0");
+            for (int g = 0; g < 16; g++) for (int j = 0; j < 8; j++) seq.push_back(std::string(1, (char)('A' + g)) + std::string(j, '\0'));
+            seq.resize(128);
+            std::vector<std::string> all = seq;
+            for (auto& k : seq) { if (std::find(keys.begin(), keys.end(), k) == keys.end()) keys.push_back(k); do_put(k, false, false, 0); }
+            do_mem();
+            // child c = [x_{c-1}\0^7, x_c, x_c\0 .. x_c\0^6]: eight keys x_{c-1}\1 .. x_{c-1}\8 behind its first key
+            for (int f = 1; f <= 8; f++) { std::string k = std::string(1, (char)('A' + c - 1)) + std::string(1, (char)f); all.push_back(k);
+                if (std::find(keys.begin(), keys.end(), k) == keys.end()) keys.push_back(k); do_put(k, false, false, 0); }
+            do_mem();
+            for (auto& k : all) do_get(k);
+            std::sort(all.begin(), all.end());
+            if (variant++ % 2) std::reverse(all.begin(), all.end());
+            for (auto& k : all) do_rem(k);
+        }
+    }
     long psweep = argi("psweep", 0), pdrain = argi("pdrain", 0); std::vector<std::string> sweep;   // sorted runs of removes that empty whole borders
     for (long opno = 1; opno <= nops; opno++) {
         long x = rng() % 100; long acc = 0;
